@@ -21,4 +21,43 @@ CHECKS = {
     ),
 }
 
+CHECKS.update({
+    "C03": dict(
+        level_text="Exploration by runtime monitoring: at the first raw operation of every acquiring call the caller's held set (audit owner table) must be empty, and whenever an API hands the key back (guard drop, unlock*, failed try, scoped return or unwind) the caller must hold nothing; after every step the same locks are re-acquired at once with the key that came back. Random API sequences with phantom holders, the exhaustive blocking shape sweep and every concurrent episode.",
+        design_ref="DESIGN.md §3 C03",
+        level_note="Trusted: audit owner table; checked at API return, not at the raw unlock (scoped_* legitimately drops an owned key one statement before the release).",
+        technique="runtime monitoring: held-set monitor at the client boundary over audit raw locks",
+    ),
+    "C04": dict(
+        level_text="Exploration by runtime monitoring: owner-table diff across every acquisition against the leaf set computed from the harness's own description of the shape (exactly the leaves, requested mode, once each); failed try leaves nothing held and hands the key back; no blocking raw op inside try_*; closure invocations = 1 iff acquired. Exhaustive over shapes x pre-held patterns for sizes 0..3 (0..4 thorough) for try and blocking APIs, plus concurrent episodes.",
+        design_ref="DESIGN.md §3 C04",
+        level_note="Trusted: audit owner table, the harness's flattening of its own shape description (exec.rs expected_ids).",
+        technique="runtime monitoring: owner-table diff vs shape oracle, exhaustive small-shape sweep + scheduled episodes",
+    ),
+    "C07": dict(
+        level_text="Exploration by runtime monitoring: Boxed/Ref/Retrying::try_new verdicts are compared with a flattened-multiset oracle over harness lock ids for member lists with the duplicate pair at every pair of positions and in every alias form; accepted collections are locked and must hold exactly their leaves. The compile-gated half (new/new_ref accept only owning inputs) is checked by corpus programs under C15's lane.",
+        design_ref="DESIGN.md §3 C07",
+        level_note="Trusted: DupOracle (dupfam.rs), Member dispatch. One listed known finding would be zero-sized owned units (see DESIGN.md §5 D8) — outside the dynamic generator.",
+        technique="runtime monitoring: reference-model (multiset oracle) comparison over generated member lists",
+    ),
+    "C08": dict(
+        level_text="Exploration by runtime monitoring: the blocking acquisition order of every call through a sorting collection is read from the raw-lock log and folded into one precedence relation per universe that must stay antisymmetric (no assumption that the order is by address); owned units must stay contiguous.",
+        design_ref="DESIGN.md §3 C08",
+        level_note="Trusted: raw-lock event log order. Holds for the universes/arrangements produced.",
+        technique="runtime monitoring: precedence-relation (ordering) checker over the raw-lock event log",
+    ),
+    "C13": dict(
+        level_text="Exhaustive enumeration at runtime of the finite quiescent space: every shape of sizes 0..3 (0..4 thorough) x every assignment of {free, read-held, write-held} x try_lock/try_read x try/scoped_try x both wake policies; outcome compared with TryOracle, owner table compared before/after.",
+        design_ref="DESIGN.md §3 C13",
+        level_note="Holders are phantom owners placed directly in the audit lock table (observationally identical for try-operations, which consult only the raw lock).",
+        technique="runtime monitoring: exhaustive enumeration against a reference oracle over audit raw locks",
+    ),
+    "C17": dict(
+        level_text="Exploration by runtime monitoring: every non-acquiring operation runs under a call context; the monitor rejects any blocking raw op inside it and any difference of the owner table before/after (transient try-acquire+release inside Debug is allowed). Locks are free, held by a phantom, held by the caller's own live guard, inside a running scoped closure, or held through a leaked guard.",
+        design_ref="DESIGN.md §3 C17",
+        level_note="Trusted: audit owner table and call contexts. Found and fixed one genuine defect (Debug of a locked Mutex unlocked it).",
+        technique="runtime monitoring: before/after owner-table diff + blocking-op detector around non-acquiring calls",
+    ),
+})
+
 NOT_APPLICABLE = {}
